@@ -17,6 +17,8 @@ F = CFGF
 N3 = [Opt('str', b'z', 0, b'deep-default'), Opt('strl', b'zl', 0, b'{d1, "d 2"}'), Opt('int', b'q', 0, 3)]
 N2 = [Opt('int', b'a', 0, 11), Opt('str', b's', 0, b'sub-default'), Opt('intl', b'l', 0, b'{5, 6}'),
       Opt('sec', b'n', F['MULTI'] | F['TITLE'], None, N3), Opt('flt', b'f', 0, 2.5), Opt('bool', b'b', 0, 1),
+      # a titled section that is not multi: created with every instance, like a plain one
+      Opt('sec', b'ts', F['TITLE'], None, [Opt('int', b'r', 0, 9)]),
       # plain sections nested in every instance (created with it, two levels)
       Opt('sec', b'pl', 0, None, [Opt('int', b'z', 0, 4), Opt('sec', b'pp', 0, None, [Opt('int', b'y', 0, 5)])])]
 SCHEMA = [Opt('int', b'i', 0, 7), Opt('str', b's', 0, b'top-default'), Opt('strl', b'sl', 0, b'{x, "y z"}'),
@@ -201,6 +203,8 @@ def check_instances(c, schema, where, rootflags=None):
         want = {'strl': 'str', 'intl': 'int', 'booll': 'bool', 'fltl': 'float', 'flt': 'float'}.get(so.kind, so.kind)
         if o.kind != want:
             bad.append('%s|%s has kind %s, declared %s' % (where.decode('latin-1'), so.name.decode(), o.kind, so.kind))
+        if so.kind == 'sec' and not so.flags & F['MULTI'] and len(o.vals) != 1 and where != b'root':      # (the workload removes root|one)
+            bad.append('%s|%s (a single section) has %d instances' % (where.decode('latin-1'), so.name.decode(), len(o.vals)))
         if so.kind == 'sec':
             for k, sub in enumerate(o.vals):
                 bad += check_instances(sub, so.sub, where + b'|' + so.name + b'=%d' % k, rootflags)
